@@ -100,6 +100,11 @@ def scenarios(tier):
     L.append((SC.scn("noisy-unchanged-quiet-dependency-shown-with-u-j1", qw, ["redo --no-color top"], visible=VIS, log_mode=True,
                      setup=[["ifchange", ["top"]]], post_cmds=post + [["redo-log", "-r", "-u", "--no-color", "top"]],
                      times={"q": 0}, post_times=[None, None, {"q": 0}]), 0))
+    # a target whose name ends in a space (names read from a list with trailing blanks or DOS line endings)
+    ww = World("noisy-trailing-space", {"s": ["0", "1"]},
+               {"top.do": [S(deps=["m "], noise=1)], "m .do": [S(deps=["c"], noise=1, out="file")], "c.do": [S(deps=["s"], noise=1)]},
+               ["top", "m ", "c"], ["top"])
+    L.append((SC.scn("noisy-target-name-ends-in-space-j1", ww, ["redo --no-color top"], visible=VIS, log_mode=True, post_cmds=post), 0))
     # every script writes a line that parses as a record naming a file redo knows nothing about: in-band signalling, so the
     # line itself is shown as a header -- but the viewer must survive it and go on showing everything else
     L.append((SC.scn("noisy-record-like-line-j1", noisy_world(2), ["redo --no-color top"], visible=VIS, log_mode=True,
@@ -111,7 +116,7 @@ def scenarios(tier):
 
 HDR = re.compile(r"^redo\s+(\S.*?)(?: \((?:resumed|done|exit \d+)\))?$")
 RAW = re.compile(r"^@@REDO:([a-z]+):\d+:[0-9.]+@@ (.*)$")
-TAG = re.compile(r"^L (\S+) (\d) (.*)$")
+TAG = re.compile(r"^L (\S+) +(\d) (.*)$")       # (a target name may end in blanks)
 EXPECT = {1: "whole line", 2: "first half-second half", 5: "p1-p2-p3-p4", 3: "x" * 20000, 4: "after dependencies"}
 ORDER = [1, 2, 5, 3, 4]
 
@@ -153,7 +158,7 @@ def parse_raw(text):
 def judge_stream(name, pairs, targets, scn, out, times=None):
     """each target's tagged lines: exactly once, in order, complete, under its own header"""
     times = times if times is not None else (scn.get("times") or {})
-    targets = [t.split("/")[-1] for t in targets]     # script lines carry $1, the name relative to the script's directory
+    targets = [t.split("/")[-1].strip() for t in targets]     # script lines carry $1, the name relative to the script's directory
     seen = {t: [] for t in targets}
     for cur, line in pairs:
         m = TAG.match(line.strip("\r"))
@@ -216,7 +221,7 @@ def oracle(scn, res):
         return out
     targets = scn["world"].targets
     live = res["stderr"]["T0"]
-    known = {t.split("/")[-1] for t in targets}
+    known = {t.split("/")[-1].strip() for t in targets}
     judge_stream("live", parse_pretty(live, known), targets, scn, out)
     for i, p in enumerate(res.get("post", [])):
         raw = "--no-pretty" in p["argv"]
